@@ -56,10 +56,12 @@ theorem split_mid {m' a b : Str} {x c : Char} (ha : x ∉ a) (hc : c ∈ x :: m'
 
 theorem stepLine_restart (st : Cat × Option Int) (n : Nat) :
     stepLine st (printLine (.restart n)) = .ok (applyLine st (.restart n)) := by
-  have h1 : isInfix mRestart (mRestart ++ toDec n) = true := isInfix_of_prefix (isPrefixOf_append_self _ _)
+  have h1 : mRestart.isPrefixOf (mRestart ++ toDec n) = true := isPrefixOf_append_self _ _
+  have hA : sReading.isPrefixOf (mRestart ++ toDec n) = false := by simp [sReading, mRestart, List.isPrefixOf]
+  have hB : sNoData.isPrefixOf (mRestart ++ toDec n) = false := by simp [sNoData, mRestart, List.isPrefixOf]
   have h2 : split mRestart (mRestart ++ toDec n) = [[], toDec n] :=
     split_lit_prefix (c := 'r') (by decide) (not_mem_of_isDig_false (by decide) n)
-  simp [stepLine, printLine, h1, h2, idx, pyIntE_toDec, applyLine]
+  simp [stepLine, printLine, hA, hB, h1, h2, idx, pyIntE_toDec, applyLine]
 
 theorem split1_first {c : Char} {a : Str} (b : Str) (h : c ∉ a) :
     split [c] (a ++ c :: b) = a :: split [c] b := by
@@ -79,8 +81,9 @@ theorem stepLine_its (st : Cat × Option Int) (r : Int) (hst : st.2 = some r) (a
       ['i', 't'] ++ ' ' :: (['='] ++ ' ' :: (toDec a ++ ' ' :: (['-', '>'] ++ ' ' :: toDec b))) := by
     simp [printLine, sItEq]
   have hsp : ∀ n, ' ' ∉ toDec n := fun n => not_mem_of_isDig_false (by decide) n
-  have h0 : isInfix mRestart (printLine (.its a b)) = false :=
-    isInfix_false_of_char (c := 'r') (by decide) (by simp [hline])
+  have hA : sReading.isPrefixOf (printLine (.its a b)) = false := by simp [hline, sReading, sItEq, List.isPrefixOf]
+  have hB : sNoData.isPrefixOf (printLine (.its a b)) = false := by simp [hline, sNoData, sItEq, List.isPrefixOf]
+  have h0 : mRestart.isPrefixOf (printLine (.its a b)) = false := by simp [hline, mRestart, sItEq, List.isPrefixOf]
   have h1 : isInfix mVars (printLine (.its a b)) = false :=
     isInfix_false_of_char (c := 'D') (by decide) (by simp [hline])
   have h2 : isInfix mArrow (printLine (.its a b)) = true := by
@@ -90,7 +93,7 @@ theorem stepLine_its (st : Cat × Option Int) (r : Int) (hst : st.2 = some r) (a
   have h3 : split [' '] (printLine (.its a b)) = [['i', 't'], ['='], toDec a, ['-', '>'], toDec b] := by
     rw [hline, split1_first _ (by decide), split1_first _ (by decide), split1_first _ (hsp a),
       split1_first _ (by decide), split1_none (hsp b)]
-  simp [stepLine, h0, h1, h2, h3, idx, pyIntE_toDec, setEntry_some hst, applyLine, hst]
+  simp [stepLine, hA, hB, h0, h1, h2, h3, idx, pyIntE_toDec, setEntry_some hst, applyLine, hst]
 
 theorem split2_first {c d : Char} {a : Str} (b : Str) (h : c ∉ a) :
     split [c, d] (a ++ c :: d :: b) = a :: split [c, d] b := by
@@ -104,8 +107,9 @@ theorem stepLine_arange (st : Cat × Option Int) (r : Int) (hst : st.2 = some r)
       (toDec a ++ ',' :: ' ' :: (toDec b ++ ',' :: ' ' :: (toDec d ++ [')']))))
   have hline : printLine (.arange rl a b d) = mRl ++ rest := by
     simp [printLine, mRl, sAtIt, sNpArange, rest]
-  have h0 : isInfix mRestart (printLine (.arange rl a b d)) = false :=
-    isInfix_false_of_char (c := 's') (by decide) (by simp [hline, mRl, rest])
+  have hA : sReading.isPrefixOf (printLine (.arange rl a b d)) = false := by simp [hline, sReading, mRl, List.isPrefixOf]
+  have hB : sNoData.isPrefixOf (printLine (.arange rl a b d)) = false := by simp [hline, sNoData, mRl, List.isPrefixOf]
+  have h0 : mRestart.isPrefixOf (printLine (.arange rl a b d)) = false := by simp [hline, mRestart, mRl, List.isPrefixOf]
   have h1 : isInfix mVars (printLine (.arange rl a b d)) = false :=
     isInfix_false_of_char (c := 'D') (by decide) (by simp [hline, mRl, rest])
   have h2 : isInfix mArrow (printLine (.arange rl a b d)) = false :=
@@ -142,7 +146,7 @@ theorem stepLine_arange (st : Cat × Option Int) (r : Int) (hst : st.2 = some r)
       split_none (c := ',') (by simp) (by simp)]
   have h10 : (split [')'] (toDec d ++ [')']))[0]? = some (toDec d) := by
     rw [split1_first _ (by simp)]; rfl
-  simp only [stepLine, h0, h1, h2, h3, h4, h5, h7, h9, idx, if_true, Bool.false_eq_true, if_false,
+  simp only [stepLine, hA, hB, Bool.or_self, h0, h1, h2, h3, h4, h5, h7, h9, idx, if_true, Bool.false_eq_true, if_false,
     List.getElem?_cons_zero, List.getElem?_cons_succ, ebind_ok, h6, h8, h10, pyIntE_toDec,
     setEntry_some hst, applyLine, hst]
 
@@ -151,8 +155,9 @@ theorem stepLine_single (st : Cat × Option Int) (r : Int) (hst : st.2 = some r)
   let rest : Str := toDec rl ++ ' ' :: (['a', 't', ' ', 'i', 't', ' ', '=', ' '] ++ '[' :: (toDec x ++ [']']))
   have hline : printLine (.single rl x) = mRl ++ rest := by
     simp [printLine, mRl, sAtIt, rest]
-  have h0 : isInfix mRestart (printLine (.single rl x)) = false :=
-    isInfix_false_of_char (c := 's') (by decide) (by simp [hline, mRl, rest])
+  have hA : sReading.isPrefixOf (printLine (.single rl x)) = false := by simp [hline, sReading, mRl, List.isPrefixOf]
+  have hB : sNoData.isPrefixOf (printLine (.single rl x)) = false := by simp [hline, sNoData, mRl, List.isPrefixOf]
+  have h0 : mRestart.isPrefixOf (printLine (.single rl x)) = false := by simp [hline, mRestart, mRl, List.isPrefixOf]
   have h1 : isInfix mVars (printLine (.single rl x)) = false :=
     isInfix_false_of_char (c := 'D') (by decide) (by simp [hline, mRl, rest])
   have h2 : isInfix mArrow (printLine (.single rl x)) = false :=
@@ -172,7 +177,7 @@ theorem stepLine_single (st : Cat × Option Int) (r : Int) (hst : st.2 = some r)
     rw [hl7, split1_first _ (by simp [mRl, sAtIt]), split1_none (by simp)]
   have h8 : (split [']'] (toDec x ++ [']']))[0]? = some (toDec x) := by
     rw [split1_first _ (by simp)]; rfl
-  simp only [stepLine, h0, h1, h2, h3, h4, h5, h7, idx, if_true, Bool.false_eq_true, if_false,
+  simp only [stepLine, hA, hB, Bool.or_self, h0, h1, h2, h3, h4, h5, h7, idx, if_true, Bool.false_eq_true, if_false,
     List.getElem?_cons_zero, List.getElem?_cons_succ, ebind_ok, h6, h8, pyIntE_toDec,
     setEntry_some hst, applyLine, hst]
 
@@ -286,8 +291,9 @@ theorem stepLine_chk (st : Cat × Option Int) (r : Int) (hst : st.2 = some r) (l
       · exact h4 h
       · exact h5 h
       · simp [h6] at h
-  have h0 : isInfix mRestart (printLine (.chk l)) = false :=
-    isInfix_false_of_char (c := '=') (by decide) (hnot _ (by decide) (by decide) (by decide) (by decide) (by decide) (by decide))
+  have hA : sReading.isPrefixOf (printLine (.chk l)) = false := by simp [hline, sReading, mChkColon, mChk, List.isPrefixOf]
+  have hB : sNoData.isPrefixOf (printLine (.chk l)) = false := by simp [hline, sNoData, mChkColon, mChk, List.isPrefixOf]
+  have h0 : mRestart.isPrefixOf (printLine (.chk l)) = false := by simp [hline, mRestart, mChkColon, mChk, List.isPrefixOf]
   have h1 : isInfix mVars (printLine (.chk l)) = false :=
     isInfix_false_of_char (c := 'D') (by decide) (hnot _ (by decide) (by decide) (by decide) (by decide) (by decide) (by decide))
   have h2 : isInfix mArrow (printLine (.chk l)) = false :=
@@ -315,7 +321,7 @@ theorem stepLine_chk (st : Cat × Option Int) (r : Int) (hst : st.2 = some r) (l
         have h2 : c ≠ ']' := by intro h'; subst h'; revert h; decide
         simp [h1, h2]
     rw [this]; simp
-  simp only [stepLine, h0, h1, h2, h3, h4, h5, idx, if_true, Bool.false_eq_true, if_false,
+  simp only [stepLine, hA, hB, Bool.or_self, h0, h1, h2, h3, h4, h5, idx, if_true, Bool.false_eq_true, if_false,
     List.getElem?_cons_zero, List.getElem?_cons_succ, ebind_ok, hfil]
   cases l with
   | nil =>
@@ -601,28 +607,6 @@ theorem pyStrList_ok {l : List Str} (hl : ∀ n ∈ l, nameOK n = true) :
   have : l.map pyRepr = l.map qq := List.map_congr_left (fun n hn => pyRepr_ok (hl n hn))
   simp [pyStrList, this]
 
-theorem vars_no_restart (l : List Str) (hl : ∀ n ∈ l, nameOK n = true) :
-    isInfix mRestart (printLine (.vars l)) = false := by
-  let body : Str := joinSep [',', ' '] (l.map qq) ++ [']']
-  have hline : printLine (.vars l) = mVarsOpen ++ body := by
-    simp [printLine, pyStrList_ok hl, mVarsOpen, body]
-  have hpb : ∀ y, y ≠ '\'' → hasPair ' ' y ('[' :: body) = false := by
-    intro y hy
-    have := hasPair_body y hy [']'] (by decide) l ['['] (by decide) hl
-    simpa [body] using this
-  have hpb' : ∀ y, y ≠ '\'' → hasPair ' ' y body = false := by
-    intro y hy
-    have := hasPair_body y hy [']'] (by decide) l [] (by simp) hl
-    simpa [body] using this
-  have h0 : isInfix mRestart (printLine (.vars l)) = false := by
-    apply isInfix_false_of_pair (x := ' ') (y := '=') (by decide)
-    have e : printLine (.vars l) = mVars ++ ':' :: ' ' :: '[' :: body := by
-      simp [hline, mVarsOpen]
-    rw [e]
-    have := hpb '=' (by decide)
-    simp [mVars, hasPair_cons_ne, hasPair_cons_eq_ne, this]
-  exact h0
-
 theorem stepLine_vars (st : Cat × Option Int) (r : Int) (hst : st.2 = some r) (l : List Str)
     (hne : l ≠ []) (hl : ∀ n ∈ l, nameOK n = true) :
     stepLine st (printLine (.vars l)) = .ok (applyLine st (.vars l)) := by
@@ -637,13 +621,9 @@ theorem stepLine_vars (st : Cat × Option Int) (r : Int) (hst : st.2 = some r) (
     intro y hy
     have := hasPair_body y hy [']'] (by decide) l [] (by simp) hl
     simpa [body] using this
-  have h0 : isInfix mRestart (printLine (.vars l)) = false := by
-    apply isInfix_false_of_pair (x := ' ') (y := '=') (by decide)
-    have e : printLine (.vars l) = mVars ++ ':' :: ' ' :: '[' :: body := by
-      simp [hline, mVarsOpen]
-    rw [e]
-    have := hpb '=' (by decide)
-    simp [mVars, hasPair_cons_ne, hasPair_cons_eq_ne, this]
+  have hA : sReading.isPrefixOf (printLine (.vars l)) = false := by simp [hline, sReading, mVarsOpen, mVars, List.isPrefixOf]
+  have hB : sNoData.isPrefixOf (printLine (.vars l)) = false := by simp [hline, sNoData, mVarsOpen, mVars, List.isPrefixOf]
+  have h0 : mRestart.isPrefixOf (printLine (.vars l)) = false := by simp [hline, mRestart, mVarsOpen, mVars, List.isPrefixOf]
   have h1 : isInfix mVars (printLine (.vars l)) = true := by
     have : printLine (.vars l) = mVars ++ ([':', ' ', '['] ++ body) := by simp [hline, mVarsOpen]
     rw [this]; exact isInfix_of_prefix (isPrefixOf_append_self _ _)
@@ -658,21 +638,18 @@ theorem stepLine_vars (st : Cat × Option Int) (r : Int) (hst : st.2 = some r) (
     rw [this, split_none' (by decide) hb]
   have h3 : split [',', ' '] body = piecesT [']'] l := split_comma_sp_qq [']'] (by decide) l hne hl
   have h4 := mapM_pieces [']'] (by decide) l hl
-  simp only [stepLine, h0, h1, h2, idx_one, h3, h4, if_true, Bool.false_eq_true, if_false,
+  simp only [stepLine, hA, hB, Bool.or_self, h0, h1, h2, idx_one, h3, h4, if_true, Bool.false_eq_true, if_false,
     ebind_ok, setEntry_some hst, applyLine, hst]
 
 /-! ### assembling T2 -/
 
-def noMarker (s : Str) : Bool :=
-  !isInfix mRestart s && !isInfix mVars s && !isInfix mArrow s && !isInfix mRl s && !isInfix mChk s
-
-/-- hypotheses of T2 on one line: variable names are plain (`nameOK`), and the
-free-text lines (the two lines carrying a path) contain none of the five
-markers the classifier of `read_iterations` looks for, nor a line break -/
+/-- hypotheses of T2 on one line: variable names are plain (`nameOK`); the two
+lines carrying a path contain no line break (nothing else is assumed about
+the path: the parser skips these lines by their fixed beginning) -/
 def LineOK : Line → Prop
   | .vars l => l ≠ [] ∧ ∀ n ∈ l, nameOK n = true
-  | .noData p => noMarker (printLine (.noData p)) = true ∧ '\n' ∉ p ∧ '\r' ∉ p
-  | .reading p => noMarker (printLine (.reading p)) = true ∧ '\n' ∉ p ∧ '\r' ∉ p
+  | .noData p => '\n' ∉ p ∧ '\r' ∉ p
+  | .reading p => '\n' ∉ p ∧ '\r' ∉ p
   | _ => True
 
 def setsEntry : Line → Bool
@@ -681,18 +658,17 @@ def setsEntry : Line → Bool
   | .reading _ => false
   | _ => true
 
-theorem stepLine_free (st : Cat × Option Int) (s : Str) (h : noMarker s = true) : stepLine st s = .ok st := by
-  simp only [noMarker, Bool.and_eq_true, Bool.not_eq_true'] at h
-  obtain ⟨⟨⟨⟨h0, h1⟩, h2⟩, h3⟩, h4⟩ := h
-  simp [stepLine, h0, h1, h2, h3, h4]
+theorem stepLine_path (st : Cat × Option Int) (s : Str)
+    (h : sReading.isPrefixOf s = true ∨ sNoData.isPrefixOf s = true) : stepLine st s = .ok st := by
+  rcases h with h | h <;> simp [stepLine, h]
 
 theorem stepLine_ok (st : Cat × Option Int) (l : Line) (hl : LineOK l)
     (hst : setsEntry l = true → st.2.isSome = true) :
     stepLine st (printLine l) = .ok (applyLine st l) := by
   cases l with
   | restart n => exact stepLine_restart st n
-  | noData p => rw [stepLine_free st _ hl.1]; rfl
-  | reading p => rw [stepLine_free st _ hl.1]; rfl
+  | noData p => exact stepLine_path st (sNoData ++ p) (Or.inr (isPrefixOf_append_self _ _))
+  | reading p => exact stepLine_path st (sReading ++ p) (Or.inl (isPrefixOf_append_self _ _))
   | vars l =>
     obtain ⟨r, hr⟩ := Option.isSome_iff_exists.mp (hst rfl)
     exact stepLine_vars st r hr l hl.1 hl.2
@@ -746,8 +722,8 @@ theorem line_no_break (l : Line) (hl : LineOK l) : '\n' ∉ printLine l ∧ '\r'
   | its a b => constructor <;> simp [printLine, sItEq]
   | arange rl a b d => constructor <;> simp [printLine, mRl, sAtIt, sNpArange]
   | single rl x => constructor <;> simp [printLine, mRl, sAtIt]
-  | noData p => constructor <;> simp [printLine, sNoData, hl.2.1, hl.2.2]
-  | reading p => constructor <;> simp [printLine, sReading, hl.2.1, hl.2.2]
+  | noData p => constructor <;> simp [printLine, sNoData, hl.1, hl.2]
+  | reading p => constructor <;> simp [printLine, sReading, hl.1, hl.2]
   | chk l =>
     have hj := comma_notin_join l
     have : ∀ c, c ∈ printLine (.chk l) → c ∈ mChkColon ∨ c = '[' ∨ c = ']' ∨ c = ',' ∨ c = ' ' ∨ isDig c = true := by
@@ -844,7 +820,14 @@ theorem printLines_no_cr (ls : List Line) (hok : ∀ l ∈ ls, LineOK l) : '\r' 
     simp [h1, h2]
 
 theorem stepLine_empty (st : Cat × Option Int) : stepLine st [] = .ok st := by
-  apply stepLine_free; decide
+  have e1 : sReading.isPrefixOf ([] : Str) = false := by decide
+  have e2 : sNoData.isPrefixOf ([] : Str) = false := by decide
+  have e3 : mRestart.isPrefixOf ([] : Str) = false := by decide
+  have e4 : isInfix mVars [] = false := by decide
+  have e5 : isInfix mArrow [] = false := by decide
+  have e6 : isInfix mRl [] = false := by decide
+  have e7 : isInfix mChk [] = false := by decide
+  simp [stepLine, e1, e2, e3, e4, e5, e6, e7]
 
 /-- **T2** -/
 theorem print_parse_roundtrip_lemma (ls : List Line) (hok : ∀ l ∈ ls, LineOK l)
